@@ -73,6 +73,12 @@ switches:
 lights:
   l_c07:
     number: 1
+  l_c07b:
+    number: 2
+coils:
+  k_c07:
+    number: 1
+    allow_enable: true
 game:
   balls_per_game: 5
 modes:
@@ -249,6 +255,36 @@ ball_saves:
     grace_period: 500ms
     enable_events: bsen_{n}
 """,
+    # config players keyed on an event qe_<n> that the harness posts as a QUEUE event while a higher-priority handler holds
+    # the queue: the snapshot of the handler list still contains the entries when the mode stops during the hold
+    "cfgq": """
+light_player:
+  qe_{n}:
+    l_c07: red
+show_player:
+  qe_{n}: sh_c07
+event_player:
+  qe_{n}: qpong_{n}
+coil_player:
+  qe_{n}:
+    k_c07: enable
+""",
+    "gamecfgq": """
+light_player:
+  qe_{n}:
+    l_c07b: blue
+  mode_{n}_started:
+    l_c07: red
+show_player:
+  qe_{n}:
+    sh_c07:
+      loops: 1
+variable_player:
+  qe_{n}:
+    score: 100
+event_player:
+  qe_{n}: qpong_{n}
+""",
     "gamey": """
 shots:
   sh_{n}:
@@ -280,7 +316,16 @@ POOL = [
     # shot delay switch, ball save timers): everything they scheduled must die with the mode
     ("m1", 200, False, False, "timer"), ("m2", 300, False, False, "timerrun"), ("m3", 100, False, True, "timer"),
     ("m1", 150, True, False, "gametimer"), ("m2", 250, True, False, "gametimer"), ("m3", 200, True, False, "timerrun"),
+    # config players keyed on an event posted as a queue event that is held open across the mode's stop
+    ("m1", 200, False, False, "cfgq"), ("m2", 300, False, True, "cfgq"), ("m3", 100, False, False, "cfgq"),
+    ("m1", 250, True, False, "gamecfgq"), ("m2", 150, True, False, "gamecfgq"),
 ]
+CFGQ = ("cfgq", "gamecfgq")
+SHOWS = {"sh_c07": "- duration: 1s\n  lights:\n    l_c07b: green\n- duration: 1s\n  lights:\n    l_c07b: black\n"}
+# config-player sections: number in the model; below 100 = leaves something behind under the mode's context (light stack
+# entry, show instance, enabled coil) until clear_context, 100 and above = acts and is done (posts an event, adds a score)
+SECTIONS = {"light_player": 0, "show_player": 1, "coil_player": 2, "event_player": 100, "variable_player": 101,
+            "queue_relay_player": 102, "queue_event_player": 103, "random_event_player": 104}
 DELAYED_CTL = {"dly": ["arm_", "dis_", "rst_"], "gamedly": ["arm_", "rst_", "dis_", "rsn_"]}
 TIMER_EVS = ["tstart_", "tstop_", "tpause_", "tpause0_", "treset_", "tadd_"]
 OWN_TIMERS = {"timer": TIMER_EVS, "timerrun": TIMER_EVS, "gametimer": TIMER_EVS + ["e1_", "e2_", "bsen_"]}
@@ -300,7 +345,7 @@ def build_vm(case):
     names = sorted(case["modes"])
     cfg = BASE_CONFIG % "".join("  - %s\n" % n for n in names)
     modes = {n: mode_yaml(n, *case["modes"][n]) for n in names}
-    return VMachine(cfg, modes=modes, game=True)
+    return VMachine(cfg, modes=modes, shows=SHOWS, game=True)
 
 
 # ---------------------------------------------------------------------------------------------------------------------
@@ -359,8 +404,17 @@ def _install():
         r = Rec.cur
         if r is not None:
             r.periodic.append((t, cbname(callback)))
+            r.pt_added(t, callback)
         return t
     CB.schedule_interval = schedule_interval
+    o_us = CB.unschedule      # a staticmethod
+
+    def unschedule(event):
+        r = Rec.cur
+        if r is not None:
+            r.pt_removed(event)
+        return o_us(event)
+    CB.unschedule = staticmethod(unschedule)
     from mpf.core import mode_controller as mcmod
     MC = mcmod.ModeController
     if hasattr(MC, "_stop_mode_started_at_turn_end"):
@@ -397,6 +451,8 @@ def _install():
     def add(self, ms, callback, name=None, **kwargs):
         name = o_add(self, ms, callback, name, **kwargs)
         r = Rec.cur
+        if r is not None:
+            r.tm_added(self, name)
         md = kwargs.get("mode")
         if r is not None and md is not None and getattr(md, "name", None) in r.names:
             # the delayed control-event path (Mode._control_event_handler), on whichever manager it was scheduled
@@ -407,9 +463,65 @@ def _install():
         r = Rec.cur
         if r is not None:
             r.ctl_fired(self, name, callback)
+            r.tm_gone(self, name, "firetm")
         return o_fire(self, name, callback, **kwargs)
     DM.add = add
     DM._process_delay_callback = fire
+    o_remove = DM.remove
+
+    def remove(self, name):
+        r = Rec.cur
+        if r is not None and name in self.delays:
+            r.tm_gone(self, name, "remtm")
+        return o_remove(self, name)
+    DM.remove = remove
+    _install_config_players()
+
+
+def _install_config_players():
+    """log every call of ConfigPlayer.config_play_callback made for one of the case's modes and whether it went on to play()"""
+    import importlib
+    import pkgutil
+    import mpf.config_players as cps
+    from mpf.core import config_player as cpmod
+    for mi in pkgutil.iter_modules(cps.__path__):
+        try:
+            importlib.import_module("mpf.config_players." + mi.name)
+        except Exception:       # noqa - a player that cannot be imported cannot be registered by the machine either
+            pass
+    CP = cpmod.ConfigPlayer
+    o_cb = CP.config_play_callback
+
+    def config_play_callback(self, settings, calling_context, priority=0, mode=None, **kwargs):
+        r = Rec.cur
+        if r is None or mode is None or getattr(mode, "name", None) not in r.names:
+            return o_cb(self, settings, calling_context, priority, mode, **kwargs)
+        r.cfg_stack.append(False)
+        try:
+            return o_cb(self, settings, calling_context, priority, mode, **kwargs)
+        finally:
+            r.cfg_played(self, mode, r.cfg_stack.pop())
+    CP.config_play_callback = config_play_callback
+
+    def subclasses(c):
+        for x in c.__subclasses__():
+            yield x
+            yield from subclasses(x)
+
+    def wrap_play(cls):
+        orig = cls.__dict__["play"]
+
+        def play(self, *a, **kwargs):
+            r = Rec.cur
+            if r is not None and r.cfg_stack:
+                r.cfg_stack[-1] = True
+            return orig(self, *a, **kwargs)
+        play.__name__ = "play"
+        play.__qualname__ = getattr(orig, "__qualname__", "play")
+        cls.play = play
+    for cls in set(subclasses(CP)):
+        if "play" in cls.__dict__ and not getattr(cls.__dict__["play"], "__isabstractmethod__", False):
+            wrap_play(cls)
 
 
 def cbname(cb):
@@ -445,7 +557,11 @@ def dump_sw(machine):
 
 def dump_dl(machine):
     out = []
+    r = Rec.cur
+    own = r.device_managers() if r is not None else {}
     for i, dm in enumerate(getattr(machine, "_c07_dms", [])):
+        if id(dm) in own:
+            continue            # the delay manager of a mode device of the case: registry "tm" (Real.live_device_timers)
         for name, ent in dm.delays.items():
             cb = ent[1]        # (handle, callback) or (handle, callback, kwargs)
             r = Rec.cur
@@ -455,6 +571,40 @@ def dump_dl(machine):
             elif cbname(cb) != "QueuedEvent.clear":       # the harness' own "clear later" timers
                 out.append((i, cbname(cb)))
     return sorted(out)
+
+
+def config_players(machine):
+    from mpf.core.config_player import ConfigPlayer
+    out = []
+    for a in sorted(vars(machine)):
+        if a.endswith("_player") and isinstance(getattr(machine, a, None), ConfigPlayer):
+            out.append(getattr(machine, a))
+    return out
+
+
+def dump_fx(machine):
+    """what config players leave behind: every entry of every light's stack, every non-empty instances[context][section]"""
+    out = []
+    for n, l in machine.lights.items():
+        for e in l.stack:
+            out.append(("light", n, str(e.key), e.priority))
+    for p in config_players(machine):
+        for ctx, d in p.instances.items():
+            for sec, dd in d.items():
+                for k in dd:
+                    out.append(("inst", sec, ctx, str(k[0] if isinstance(k, tuple) else k)))
+    return sorted(out)
+
+
+def fx_of_mode(fx, m):
+    """section numbers (SECTIONS) that have something recorded under the context of mode m"""
+    ids = set()
+    for e in fx:
+        if e[0] == "inst" and e[2] == m:
+            ids.add(SECTIONS.get(e[1], 199))
+        elif e[0] == "light" and (e[2] == m or e[2].startswith(m + ".")):
+            ids.add(0)
+    return sorted(ids)
 
 
 def dump_timers(machine):
@@ -502,6 +652,12 @@ class Real:
         self.hooks_off = False
         self.stop_event_ignored = None
         self.pend_cb = {n: 0 for n in self.names}     # _stopped done, _mode_stopped_callback not yet
+        self.tm = {}          # (id(device-owned delay manager), delay name) / ("pt", id(PeriodicTask)) -> uid
+        self.tm_keep = []     # keeps the PeriodicTask objects alive (ids are keys)
+        self.dev_dm = None    # id(delay manager of a mode device) -> mode name
+        self.cfg_stack = []   # config_play_callback calls in progress: did this one reach play()?
+        self.cfg_after_stop = None
+        self.hold_next = 0    # the next queue event qe_<n> is held open for that many ticks by the harness' handler
 
     # -- wrappers' callbacks ---------------------------------------------------------------------------------------
     def enter(self, name, mode, a, kw):
@@ -549,6 +705,71 @@ class Real:
         if not self.alive(m) and self.dev_event_after_stop is None:
             self.dev_event_after_stop = (m, event)
 
+    # -- delays and periodic tasks owned by mode devices -----------------------------------------------------------
+    def device_managers(self):
+        if self.dev_dm is None:
+            from mpf.core.delays import DelayManager
+            self.dev_dm = {}
+            for coll in self.machine.device_manager.collections.values():
+                for dev in coll.values():
+                    m = re.search(r"_(m\d)$", getattr(dev, "name", "") or "")
+                    dm = getattr(dev, "delay", None)
+                    if m and m.group(1) in self.names and isinstance(dm, DelayManager):
+                        self.dev_dm[id(dm)] = m.group(1)
+        return self.dev_dm
+
+    def tm_added(self, dm, name):
+        m = self.device_managers().get(id(dm))
+        if m is None or (id(dm), name) in self.tm:      # a delay added under an existing name replaces it
+            return
+        self.uid += 1
+        self.tm[(id(dm), name)] = self.uid
+        self.user[self.uid] = ("tm", m)
+        self.L.append(("user", "addtm", m, self.uid))
+
+    def tm_gone(self, dm, name, how):
+        u = self.tm.pop((id(dm), name), None)
+        if u is not None:
+            self.L.append(("user", how, self.user[u][1], u))
+
+    def pt_added(self, task, callback):
+        m = re.search(r"_(m\d)$", getattr(getattr(callback, "__self__", None), "name", "") or "")
+        if not m or m.group(1) not in self.names:
+            return
+        self.uid += 1
+        self.tm[("pt", id(task))] = self.uid
+        self.tm_keep.append(task)
+        self.user[self.uid] = ("tm", m.group(1))
+        self.L.append(("user", "addtm", m.group(1), self.uid))
+
+    def pt_removed(self, task):
+        u = self.tm.pop(("pt", id(task)), None)
+        if u is not None:
+            self.L.append(("user", "remtm", self.user[u][1], u))
+
+    def live_device_timers(self):
+        """from the machine, not from the log: pending delays on device-owned managers and live periodic tasks of devices"""
+        out = []
+        dms = {id(dm): dm for dm in getattr(self.machine, "_c07_dms", [])}
+        for did, m in self.device_managers().items():
+            for name in dms[did].delays:
+                u = self.tm.get((did, name))
+                out.append((u if u is not None else -1, m))
+        seen = set()
+        for t, n in self.periodic:
+            mm = re.search(r"_(m\d)$", n)
+            if not t._canceled and mm and mm.group(1) in self.names and id(t) not in seen:
+                seen.add(id(t))
+                u = self.tm.get(("pt", id(t)))
+                out.append((u if u is not None else -1, mm.group(1)))
+        return sorted(out)
+
+    def cfg_played(self, player, mode, played):
+        sec = SECTIONS.get(player.config_file_section, 199)
+        self.L.append(("user", "cfgplay", mode.name, sec, bool(played)))
+        if played and not mode.active and self.cfg_after_stop is None:
+            self.cfg_after_stop = (mode.name, player.config_file_section)
+
     def turn_handlers(self):
         out = {}
         for n in self.names:
@@ -588,7 +809,7 @@ class Real:
 
     def dumps(self):
         return {"bus": dump_bus(self.machine), "sw": dump_sw(self.machine), "dl": dump_dl(self.machine),
-                "pt": self.live_periodic()}
+                "pt": self.live_periodic(), "fx": dump_fx(self.machine), "tm": self.live_device_timers()}
 
     # -- user code -------------------------------------------------------------------------------------------------
     def deadline(self, ticks):
@@ -621,6 +842,10 @@ class Real:
         elif k == "qev":
             sn = len(self.L)
             self.machine.events.post_queue(a[1], lambda **kwargs: self.L.append(("qcb", sn)))
+        elif k == "qhold":
+            sn = len(self.L)
+            self.hold_next = a[2]
+            self.machine.events.post_queue("qe_" + a[1], lambda **kwargs: self.L.append(("qcb", sn)))
         elif k == "delay":
             self.uid += 1
             u = self.uid
@@ -667,7 +892,7 @@ class Real:
             self.vm.hit_switch("s_c07", 0)
         elif k == "poke":
             for n in sorted(self.names):
-                for e in ("u_", "ping_", "cnt_", "x_", "y_", "en_"):
+                for e in ("u_", "ping_", "cnt_", "x_", "y_", "en_", "qe_"):
                     self.machine.events.post(e + n)
         else:
             raise InfraError("bad act %r" % (a,))
@@ -690,17 +915,33 @@ class Real:
                     self.act(a, queue=kwargs.get("queue"))
             self.machine.events.add_handler(ev, handler, h["prio"], _c07="hook%d" % i)
 
+    def install_holders(self):
+        """a handler far above every mode's config-player entries on qe_<n>: holds the queue event open when asked to"""
+        for n in sorted(self.names):
+            if self.case["modes"][n][3] not in CFGQ:
+                continue
+
+            def holder(**kwargs):
+                k, self.hold_next = self.hold_next, 0
+                q = kwargs.get("queue")
+                if k and q is not None:
+                    q.wait()
+                    self.L.append(("hold",))
+                    self.machine.delay.add(ms=self.deadline(k) * 1000, callback=q.clear)
+            self.machine.events.add_handler("qe_" + n, holder, 100000, _c07="qh")
+
     def quiescent(self):
         snap = {n: (bool(m.active), bool(m._starting), bool(m.stopping), m.priority)
                 for n, m in sorted(self.machine.modes.items()) if n in self.names}
         self.L.append(("q", snap, [m.name for m in self.machine.mode_controller.active_modes if m.name in self.names],
-                       self.dumps(), dump_timers(self.machine)))
+                       self.dumps(), dump_timers(self.machine), sorted(n for n in self.names if self.pend_cb[n] > 0)))
 
     def run(self):
         crash = None
         Rec.cur = self
         try:
             self.install_hooks()
+            self.install_holders()
             self.vm.run()
             if self.case["game"]:
                 self.vm.start_game()
@@ -815,14 +1056,26 @@ def oracle0(case, real, crash):
             return "fired-after-stop:" + {"dl": "delay", "h": "handler", "sw": "switch-handler", "ctl": "control-event"}[kind], \
                 {"mode": m, "what": kind, "id": u}
     for e in L:
+        if e[0] == "q":
+            # what config players recorded under the context of a mode that is stopped (light stack entries, show instances,
+            # enabled coils): "the machine's registries are exactly what they were before it started"
+            for n, st in sorted(e[1].items()):
+                if not (st[0] or st[1] or st[2]) and n not in e[5]:
+                    left = [x for x in e[3]["fx"] if x not in real.base["fx"] and
+                            ((x[0] == "inst" and x[2] == n) or (x[0] == "light" and (x[2] == n or x[2].startswith(n + "."))))]
+                    if left:
+                        return "registry-leak:config-player-footprint", {"mode": n, "left_behind": left[:6]}
         if e[0] == "q" and not any(st[0] or st[1] or st[2] for st in e[1].values()):
-            for reg in ("bus", "sw", "dl", "pt"):
+            extra, missing = msub(e[3]["fx"], real.base["fx"])
+            if extra or missing:
+                return "registry-leak:config-player-footprint", {"left_behind": extra[:6], "missing": missing[:6]}
+            for reg in ("bus", "sw", "dl", "tm", "pt"):
                 extra, missing = msub(e[3][reg], real.base[reg])
                 if reg == "bus" and any(x[2] == TURN_END_CB for x in extra):
                     return "turn-end-handler-left-behind", {"left_behind": [x for x in extra if x[2] == TURN_END_CB][:4]}
                 if extra or missing:
                     kinds = sorted({x[2].split(".")[0] if reg == "bus" else str(x[-1]).split(".")[0] for x in extra + missing})
-                    return "registry-leak:" + {"bus": "event-handlers", "sw": "switch-handlers", "dl": "delays", "pt": "periodic-tasks"}[reg], \
+                    return "registry-leak:" + {"bus": "event-handlers", "sw": "switch-handlers", "dl": "delays", "tm": "delays", "pt": "periodic-tasks"}[reg], \
                         {"left_behind": extra[:6], "missing": missing[:6], "kinds": kinds}
             if not case["game"] and e is last_q:      # a cancelled periodic task leaves the heap at its next wake-up
                 extra, missing = msub(e[4], real.base_timers)
@@ -954,6 +1207,24 @@ def gen_case(r):
         burst.append(["adv", r.choice([1, 4, 24])])
         at = r.randint(0, len(ops))
         ops[at:at] = burst
+    cq = [m for m in names if chosen[m][3] in CFGQ]
+    for _ in range(r.choice([1, 2, 3]) if cq else 0):
+        # qe_<m> posted as a queue event, held open by a handler far above the mode's config-player entries; the mode stops
+        # (completely) during the hold, then the queue is released: the entries are still in the dispatcher's snapshot
+        m = r.choice(cq)
+        burst = [["ev", "start_" + m] if not chosen[m][2] or r.random() < 0.5 else ["qev", "start_" + m], ["adv", r.choice([1, 2])]]
+        if r.random() < 0.3:
+            burst.append(["ev", "qe_" + m])      # an ordinary play while the mode is up
+        burst.append(["qhold", m, r.choice([0, 3, 6, 10])])
+        if r.random() < 0.8:
+            if r.random() < 0.3:
+                burst.append(["adv", 1])
+            burst.append(r.choice([["stop", m], ["ev", "stop_" + m]] + ([["ballend"]] if chosen[m][1] else [])))
+            if r.random() < 0.25:
+                burst += [["adv", r.choice([1, 2])], ["ev", "start_" + m]]     # up again (a new run) when the queue is released
+        burst.append(["adv", r.choice([1, 4, 12])])
+        at = r.randint(0, len(ops))
+        ops[at:at] = burst
     for o in ops:
         if o[0] in ("addh", "addsw"):
             del o[2:]
@@ -1007,7 +1278,7 @@ def calibrate(name, spec):
         cfg, _ = msub(s2["bus"], s3["bus"])
         st, _ = msub(s1["bus"], s0["bus"])
         own, _ = msub(st, cfg)
-        leak = [msub(s4[k], s0[k]) for k in ("bus", "sw", "dl")]
+        leak = [msub(s4[k], s0[k]) for k in ("bus", "sw", "dl", "tm", "fx")]
         res = {"own": rel(own), "cfg": rel(cfg), "dev": rel(dev), "leak": leak if any(a or b for a, b in leak) else None}
         _CAL[key] = res
         return res
@@ -1074,10 +1345,39 @@ def real_state_line(case, real, q, cal):
         return bool(m) and m.group(1) in snap and any(snap[m.group(1)][:3])
     bus = [e for e in bus if not device_handler_of_running_mode(e)]
     line += " | sw=" + sws + " | dl=" + dls
-    extra = bus + missing + rsw + msw + rdl + mdl
+    fx, mfx = msub(dumps["fx"], real.base["fx"])
+    fxs = []
+    for n in sorted(case["modes"]):
+        ids = fx_of_mode(fx, n)
+        fxs += ["%d.%d" % (mid(n), i) for i in ids]
+        fx = [e for e in fx if not ((e[0] == "inst" and e[2] == n) or (e[0] == "light" and (e[2] == n or e[2].startswith(n + "."))))]
+    # light stack entries written by a running show belong to the show instance (already counted under its context)
+    fx = [e for e in fx if not ((e[0] == "light" and e[2].startswith("show_")) or (e[0] == "inst" and e[2].startswith("show_")))]
+    line += " | fx=" + ",".join(fxs)
+    line += " | tm=" + ",".join("%d.%d" % (mid(m), u) for u, m in dumps["tm"])
+    extra = bus + missing + rsw + msw + rdl + mdl + fx + mfx
     if extra:
         line += " | unexplained=" + repr(extra[:5])
     return line
+
+
+INNER_OPS = ("cfgplay", "addtm", "remtm", "firetm")
+
+
+def user_op(e, window, ops, exp):
+    """e = ("user", kind, mode, ...) logged outside a lifecycle call (window None) or inside the call `window`"""
+    if e[1] == "cfgplay":
+        ops.append("cfgplay %d %d" % (mid(e[2]), e[3]))
+        exp.append("played" if e[4] else "skipped")
+    elif e[1] in ("addtm", "firetm"):
+        ops.append("%s %d %d" % (e[1], mid(e[2]), e[3]))
+        exp.append("ok")
+    elif e[1] == "remtm":
+        # a removal made by the cleanup of a stop (device_removed_from_mode in _finish_stop: from _mode_stopped_callback or
+        # at the beginning of a restart) is what the model's cleanup has to do by itself
+        if window not in ("_mode_stopped_callback", "start"):
+            ops.append("remtm %d %d" % (mid(e[2]), e[3]))
+            exp.append("ok")
 
 
 def schedule(case, real, cal):
@@ -1098,12 +1398,15 @@ def schedule(case, real, cal):
             if e[4] != 0:
                 return None
             posts = []
+            inner = []
             j = i + 1
             while L[j][0] != "ret":
                 if L[j][0] == "post":
                     posts.append(ABBR[L[j][2]] + str(mid(L[j][1])))
                 elif L[j][0] == "call":
                     return None
+                elif L[j][0] == "user" and L[j][1] in INNER_OPS:
+                    inner.append(L[j])
                 j += 1
             m = mid(e[2])
             if e[1] == "start":
@@ -1115,10 +1418,14 @@ def schedule(case, real, cal):
             else:
                 ops.append("%s %d" % (names[e[1]], m))
                 exp.append(" ".join(posts) or "ok")
+            for u in inner:
+                user_op(u, e[1], ops, exp)
             i = j
         elif e[0] == "user" and e[1] == "turnend":
             ops.append("turnend %d" % mid(e[2]))
             exp.append("ok")
+        elif e[0] == "user" and e[1] in INNER_OPS:
+            user_op(e, None, ops, exp)
         elif e[0] == "user":
             ops.append("%s %d %d" % (e[1], mid(e[2]), e[3]))
             exp.append("ok")
